@@ -466,6 +466,11 @@ def _eligible_def(fn):
     return kind
 
 
+def _calls_itself(fn):
+    return any(isinstance(n, ast.Call) and ((isinstance(n.func, ast.Name) and n.func.id == fn.name) or
+                                            (isinstance(n.func, ast.Attribute) and n.func.attr == fn.name)) for n in ast.walk(fn))
+
+
 def collect_helpers(tree, anchors):
     mod_helpers, cls_helpers = {}, {}
     method_names = {}
@@ -483,6 +488,15 @@ def collect_helpers(tree, anchors):
             for m in st.body:
                 if isinstance(m, ast.FunctionDef) and m.name not in anchors:
                     kind = _eligible_def(m)
+                    if kind is None and st.name.startswith('_') and not st.name.startswith('__') and st.name not in anchors and \
+                            not m.name.startswith('_') and not _calls_itself(m):
+                        # a static / class method with a public name on a *private* class (``_Options.from_kwargs(kw)``):
+                        # the class is the private helper
+                        fake = copy.copy(m)
+                        fake.name = '_' + m.name
+                        kind = _eligible_def(fake)
+                        if kind not in ('static', 'class'):
+                            kind = None
                     if kind is None or len(method_names.get(m.name, [])) != 1:
                         continue      # overridden / duplicated somewhere in the module: dynamic dispatch
                     cls_helpers[(st.name, m.name)] = Helper(m, 'method' if kind == 'func' else kind, st.name)
